@@ -351,6 +351,28 @@ def task_routes(t):
     pid = os.getpid()
     fs = sorted(refs)
     made = set()
+    if focus is None:
+        # empty collections of roots (pickle): nothing but the variables is transferred
+        for empty in ([], {}):
+            case = dict(task=t, roots=[], route='empty-roots', as_dict=isinstance(empty, dict))
+            try:
+                fname = 'c12r-%d.p' % pid
+                src.dump(fname, roots=empty)
+                made.add(fname)
+                tgt = S.new_autoref()
+                back = tgt.load(fname)
+                rep.add('evaluations')
+                if back != empty or type(back) is not type(empty):
+                    rec('routes-empty', 'a pickle dump with an empty collection of roots does '
+                        'not load to the same empty collection', case)
+                if sweep.order_str(dict(tgt.vars)) != sweep.order_str(sorder):
+                    rec('routes-empty-order', 'a pickle dump with no roots did not carry the '
+                        'variable order', case)
+                O.check(tgt, {}, U)
+            except Violation as e:
+                rec('routes-empty-broken:' + e.what, e.what, case, **e.detail)
+            except Exception as e:  # noqa
+                rec('routes-empty-exception:' + type(e).__name__, 'raised %r' % (e,), case)
     for k, f in enumerate(fs):
         g = fs[(k * 7 + 3) % len(fs)]
         for route in ROUTES:
